@@ -234,6 +234,12 @@ def gen_venv(rng):
         for (this, nxt, stmt) in hops:
             # everything the entry module pulls in, however many hops away, is plugin code too
             expect.append(("%s_%s" % (fx, nxt), klass))
+        if len(hops) >= 2 and found and rng.random() < 0.6:
+            # a conftest.py elsewhere imports modules from the middle of the chain as well: the import scan then
+            # meets them by two routes, in whatever order its work lists iterate - they stay plugin code
+            files["suite%d/conftest.py" % i] = "".join(
+                rng.choice(["from %s.%s import *\n", 'pytest_plugins = ["%s.%s"]\n']) % (modname, nxt) for (_, nxt, _) in hops)
+            files["suite%d/test_s.py" % i] = "def test_s(%s_%s):\n    pass\n" % (fx, hops[-1][1])
     return files, expect, v
 
 
@@ -246,6 +252,30 @@ def run(tier, seed):
     cases = core.Cases(); r.last_cases = cases
     corpus_cases(cases, PROP)
     venv_cases = []
+
+    def emit_venv(name, files, expect, ask="test_ws.py"):
+        cases.case(name, {"kind": "venv"})
+        for k, (p, t) in enumerate(sorted(files.items())):
+            if p.endswith(".py"):
+                cases.text("f%d" % k, t)
+            else:
+                cases.text("f%d" % k, t, with_ast=False)
+            cases.raw("disk %s f%d" % (p, k))
+        cases.op("scan")
+        cases.q("dump")
+        for p in sorted(files):
+            if p.endswith(".py"):
+                cases.q("defs", p)
+        cases.q("avail", ask)
+        cases.q("unused")
+        venv_cases.append((name, files, expect))
+
+    # (fixed 2bbe7de) a plugin whose inner modules are also imported by conftest.py files: the import scan meets them
+    # by several routes in hash order - scanned several times over, every module of the chain is plugin code each time
+    from . import c08
+    for rep in range(4 if tier == "quick" else 12):
+        files, tests, chain = c08.rescan_corpus()
+        emit_venv("vc%d" % rep, files, [("fx_" + m, "plugin") for m in chain], ask=tests[0])
     for i in range(n):
         rng = r.rng
         if i % 2 == 0:
@@ -282,21 +312,7 @@ def run(tier, seed):
                 files["conftest.py"] += r.rng.choice(['pytest_plugins = ["%s"]\n', "from %s import *\n"]) % r.rng.choice(installed)
             files["test_ws.py"] = "def test_w(%s):\n    pass\n" % ", ".join(e[0] for e in expect[:4] or [("project_fx", "")])
             name = "v%d" % i
-            cases.case(name, {"kind": "venv"})
-            for k, (p, t) in enumerate(sorted(files.items())):
-                if p.endswith(".py"):
-                    cases.text("f%d" % k, t)
-                else:
-                    cases.text("f%d" % k, t, with_ast=False)
-                cases.raw("disk %s f%d" % (p, k))
-            cases.op("scan")
-            cases.q("dump")
-            for p in sorted(files):
-                if p.endswith(".py"):
-                    cases.q("defs", p)
-            cases.q("avail", "test_ws.py")
-            cases.q("unused")
-            venv_cases.append((name, files, expect))
+            emit_venv(name, files, expect)
             if any(e[0].startswith("edit_fx") for e in expect):
                 r.nontrivial.add(tuple(sorted(files)))
             if i < 3:
